@@ -44,7 +44,8 @@ for d in sorted(os.listdir(S)):
         R3 = 'C04 C05 C06 C07 C08 C09 C10 C12 C13 C14 C16 C17'.split()
         R5 = 'C04 C05 C06 C07 C09 C10 C13 C14 C16 C17'.split()
         R9 = 'C04 C05 C06 C07 C09 C10 C12 C13 C14 C16 C17 C18'.split()
-        rnd = {'a': 1, 'b': 2, 'c': 3 if prop in R3 else 4, 'd': 5 if prop in R5 else 6, 'e': 7, 'f': 8, 'g': 9 if prop in R9 else 10, 'h': 11}.get(d[-1], 12) if d[0] == 'C' else 0
+        R11 = 'C04 C05 C06 C07 C09 C10 C13 C16'.split()
+        rnd = {'a': 1, 'b': 2, 'c': 3 if prop in R3 else 4, 'd': 5 if prop in R5 else 6, 'e': 7, 'f': 8, 'g': 9 if prop in R9 else 10, 'h': 11 if prop in R11 else 14}.get(d[-1], 15) if d[0] == 'C' else 0
         meta = {
             'id': d, 'breaks_property': prop,
             'origin': 'independent sub-agent given only the property text and a scratch worktree (round %d)' % rnd,
